@@ -2,10 +2,13 @@
 (* The op table of the cgmath abstract machine: one contract Rel per public *)
 (* entry point.  Rel(op, k, f, a, r): calling `op` (operand form f) at scalar  *)
 (* kind k on the argument values a may return r.  Functional ops: r = Fn(...).            *)
-EXTENDS ApiGeo
+EXTENDS ApiMisc
 
 Rel(op, k, f, a, r) ==
   IF op \in LinRelOps THEN LinRel(op, k, a, r)
+  ELSE IF op \in MiscRelOps THEN MiscRel(op, k, f, a, r)
+  ELSE LET e0 == ViewFn(op, k, a) IN
+       IF e0 # Undef THEN Same(r, e0)
   ELSE LET e1 == LinFn(op, k, a) IN
        IF e1 # Undef THEN Same(r, e1)
        ELSE LET e2 == GeoFn(op, k, a) IN
